@@ -256,3 +256,31 @@ func runClosure(c *Ctx, cmdVar string) *ssa.Function {
 	}
 	return t.Cmds[cmdVar].Run
 }
+
+// sliceBuilder resolves a slice value to the make that creates it and the
+// function that make lives in: the value itself, or the one make a static
+// repo callee returns on every path (targets := db.fuzzyTargets(options)).
+func sliceBuilder(c *Ctx, v ssa.Value) (home *ssa.Function, mk *ssa.MakeSlice, via *ssa.Call) {
+	if m, ok := v.(*ssa.MakeSlice); ok {
+		return m.Parent(), m, nil
+	}
+	call, ok := v.(*ssa.Call)
+	if !ok {
+		return nil, nil, nil
+	}
+	g := call.Common().StaticCallee()
+	if g == nil || !c.P.IsRepoFunc(g) || len(g.Blocks) == 0 || g.Signature.Results().Len() != 1 {
+		return nil, nil, nil
+	}
+	for _, ret := range ssau.ReturnsOf(g) {
+		m, ok := ret.Results[0].(*ssa.MakeSlice)
+		if !ok || (mk != nil && mk != m) {
+			return nil, nil, nil
+		}
+		mk = m
+	}
+	if mk == nil {
+		return nil, nil, nil
+	}
+	return g, mk, call
+}
